@@ -558,7 +558,40 @@ def shared_sht_worker(part, job):
     part.nstates(1)
 
 
+def zero_property_worker(part, _):
+    """
+    special values: a surface property that is EXACTLY zero everywhere (the electrostatic potential of a homonuclear diatomic, whose
+    charges are exactly zero): the descriptor with that channel attached is the descriptor of the shape alone - same length, same
+    values, in every pose
+    """
+    from chmpy.shape import SHT, promolecule_density_descriptor, stockholder_weight_descriptor
+
+    Q = rot((1, 2, 3), 0.7)
+    for name, zs, pos in (("N2", [7, 7], [[0.0, 0.0, -0.55], [0.0, 0.0, 0.55]]), ("Cl2", [17, 17], [[0.3, 0.2, -1.0], [0.3, 0.2, 0.99]]), ("H2", [1, 1], [[0.0, 0.0, 0.0], [0.74, 0.0, 0.0]])):
+        zs = np.array(zs)
+        p0 = np.array(pos, dtype=float)
+        ez, ep = exterior_for(name, zs, p0 * 1.0)
+        for L in (4, 6):
+            for pname, P in (("reference", p0), ("rotated+translated", p0 @ Q.T + np.array([2.0, -1.0, 0.5]))):
+                part.ev()
+                part.tr(2)
+                case = {"kind": "zero-property"}
+                try:
+                    plain = np.asarray(promolecule_density_descriptor(SHT(L), zs, P), dtype=float)
+                    withp = np.asarray(promolecule_density_descriptor(SHT(L), zs, P, with_property="esp"), dtype=float)
+                except Exception as e:
+                    part.fail("zero-property:raise", "promolecule descriptor of %s with the esp channel raised %s: %s" % (name, type(e).__name__, str(e)[:80]), case)
+                    continue
+                if withp.shape != plain.shape or not (np.abs(withp - plain).max() <= 1e-6 * np.abs(plain).max()):
+                    part.fail("zero-property", "promolecule descriptor of %s (l_max=%d, %s pose) with an esp channel that is exactly zero: %d values%s, the shape-only descriptor has %d"
+                              % (name, L, pname, withp.size, "" if withp.shape != plain.shape else " differing by %.3g" % float(np.abs(withp - plain).max() / np.abs(plain).max()), plain.size), case)
+                part.outcome(("zero-property", name, L, pname))
+    part.nstates(3)
+
+
 def worker(part, job):
+    if job[0] == "zero-property":
+        return zero_property_worker(part, None)
     if job[0] == "shared-sht":
         return shared_sht_worker(part, job[1])
     if job[0] == "mol":
@@ -623,6 +656,7 @@ def run(ctx):
             for api in (("molecular", "molecular-dnorm") if si < 2 else ("molecular",)):
                 jobs.append(("crystal-shift", (fname, 4 if not ctx.thorough else 6, api, si)))
     jobs.sort(key=lambda j: -(j[1][1] if j[0] != "radial" else 0))
+    jobs.append(("zero-property", ("-", 0)))
     ctx.pmap(worker, jobs)
     ctx.rule = ("molecules %s x l_max %s x surfaces {promolecule (2 isovalues; default and explicit off-centre origin), stockholder with a 6-molecule exterior (explicit and default origin/bounds), Molecule API, per-atom API; kinds in {NP, N}} x channels "
                 "{none, d_norm, esp} (one deviation from the default at a time%s) x poses: %d rotations (BFS words of length <= 2 over 5 generators + a seed-rotated "
@@ -650,5 +684,7 @@ def replay(ctx, case):
         radial_worker(ctx, (case["mol"], case["L"]))
     elif k == "shared-sht":
         shared_sht_worker(ctx, (case["mol"], case["L"]))
+    elif k == "zero-property":
+        zero_property_worker(ctx, None)
     else:
         crystal_worker(ctx, (case["file"], case["L"], case["api"], case["rot"], case.get("seed", 0)))
